@@ -100,6 +100,10 @@ class Model:
                 for bb, t in b.calls():
                     for a in t["args"]:
                         fn_item(a)
+                    pc_ = is_param_call(t)
+                    if pc_:
+                        for cb_ in (self.flow.internal_callback(b, pc_) or []):
+                            out.add(cb_.id)
                 for bb, si, s in b.stmts():
                     if s["k"] != "assign":
                         continue
@@ -280,7 +284,8 @@ class Model:
 
     # -- user callbacks -------------------------------------------------------
     def param_calls(self, body):
-        return [(bb, t, is_param_call(t)) for bb, t in body.calls() if is_param_call(t)]
+        return [(bb, t, is_param_call(t)) for bb, t in body.calls()
+                if is_param_call(t) and self.flow.internal_callback(body, is_param_call(t)) is None]
 
     def per_item_bodies(self, entry_id):
         """Bodies reachable from the entry that invoke a user callback."""
